@@ -32,7 +32,7 @@ Class FloatOps := {
   fneg : f32 -> f32;
   f_is_nan : f32 -> bool;
   f_is_finite : f32 -> bool;
-  ffmt : Z -> f32 -> list Z;                     (* format!("{:.k}", x) as code points *)
+  ffmt : Z -> f32 -> list Z;                     (* k >= 0: format!("{:.k}", x); k < 0: format!("{}", x) (shortest round-trip Display) *)
   fparse : list Z -> option f32;                 (* str::parse::<f32>() *)
   flibm : Z -> Z -> option f32;                  (* oracle: libm function id, argument bits *)
 }.
